@@ -108,7 +108,7 @@ claim("C05",
   "ast.literal_eval / tomllib on ~5.8k hostile cases per quick run (61k thorough); the site table vs a second, differently shaped probe document. Oracle: ~970 generated trees per quick run (110 emitted slots x 15 payload "
   "classes x metadata flavours / option settings - in the quick tier one seed-chosen representative per site signature gets all classes, every other slot four (double quote, triple quote, trailing backslash, symbols) - packed absent slots, random multi-slot combinations; ~4.4k trees thorough): compile()/tomllib, AST shape equal to the canary-only rendering, payload marker only inside string "
   "tokens or sanitised identifiers, run-time-meaningful constants equal to the document text; every failure is classified by evaluating the Coq slot_guard of the sites of that slot in that file.",
-  "Trusted: Coq kernel+vm_compute; translator gen_sites.py and the probe grammar harness/lib/probe.py (slot coverage = 199 probed slots, 436 table rows; 29 pydantic str positions it does not fill are listed in evidence as "
+  "Trusted: Coq kernel+vm_compute; translator gen_sites.py and the probe grammar harness/lib/probe.py (slot coverage = 191 probed slots, 436 table rows; 29 pydantic str positions it does not fill are listed in evidence as "
   "unreached_fields); the sanitiser class of a site is inferred from one benign-specials probe and confirmed only by the oracle; CPython's tokenizer beyond string literals, f-string replacement fields "
   "(modelled as: a brace in document text is code), Jinja wordwrap/indent (assumed whitespace-only) and octal/\\x/\\u/\\N escape decoding are not modelled (lexer answers None; repr round trip proved for "
   "printable strings only); identifier VALIDITY of ClassName / enum keys rests on C09 (here only the character-class theorem); Jinja's indent filter is modelled only through the no_linesep guard conjunct; "
